@@ -24,6 +24,7 @@ from ..core import where_of, trace_of
 from ..interp import fmt, contains
 from ..model import AnalysisError, ClassInfo, _dotted
 from .. import q
+from .. import roles
 from .c11 import helper_lock_field
 
 PLUS = {"append", "appendleft", "insert", "add"}
@@ -255,41 +256,39 @@ def _lab(labels):
 
 # -------------------------------------------------------------------------- futures
 def pair_future(ctx, rep):
+    """track_future(f): one FUTURE_INPROGRESS inc, and the done-callback it registers -- whatever its form: partial of
+    a module function, nested function, lambda -- decrements that very child once and counts a cancel / an error
+    exclusively.  The callback is analysed by applying it to the future at the registration point."""
     prog = ctx.prog
     tf = prog.fn("metrics:track_future")
-    rd = prog.fn("metrics:record_done")
-    ps, it = ctx.paths(tf, None, depth=0)
+    F = ("param", tf.params[0])
+    ps, it = ctx.paths(tf, None, depth=4, immediate_callbacks=True, inline=lambda callee, ev, path: callee.module is tf.module)
+    ncb = 0
     for p in ps:
         if p.status != "return":
             continue
-        incs = [e for e in p.calls() if q.call_name(e) == "inc" and isinstance(q.recv(e), tuple) and "FUTURE_INPROGRESS" in fmt(q.recv(e))]
+        incs = [e for e in p.calls() if q.call_name(e) == "inc" and name_of_metric(q.recv(e)) == "FUTURE_INPROGRESS"]
         rep.ob("R-PAIR-F", "track_future: FUTURE_INPROGRESS inc once", len(incs) == 1, "found %d" % len(incs), where_of(tf), trace_of(p))
-        regs = [e for e in p.calls() if q.call_name(e) == "add_done_callback" and q.recv(e) == ("param", "f")]
-        ok = len(regs) == 1
-        child_ok = False
-        if ok and incs:
-            cb = regs[0].d["args"][0]
-            if isinstance(cb, tuple) and cb[0] == "partial" and cb[1] == ("func", rd.key):
-                kw = dict(cb[3])
-                child_ok = kw.get("inprogress") == q.recv(incs[0])
-                lab = lambda name: isinstance(kw.get(name), tuple) and kw[name][0] == "call" and name_of_metric(kw[name])  # noqa: E731
-                rep.ob("R-PAIR-F", "track_future: cancelled/failed children", name_of_metric(kw.get("cancelled")) == "FUTURE_CANCEL" and name_of_metric(kw.get("failed")) == "FUTURE_ERROR", "record_done must receive FUTURE_CANCEL as `cancelled` and FUTURE_ERROR as `failed`", where_of(tf))
-        rep.ob("R-PAIR-F", "track_future: registers record_done with the same gauge child", ok and child_ok, "the done-callback must be record_done bound to the child that was incremented", where_of(tf), trace_of(p))
-        rep.ob("R-PAIR-F", "track_future: returns its argument", p.value == ("param", "f"), "track_future must return the future it was given", where_of(tf))
-    ps, it = ctx.paths(rd, None, depth=0)
-    for p in ps:
-        if p.status != "return":
+        regs = [e for e in p.calls() if q.call_name(e) == "add_done_callback" and q.recv(e) == F]
+        rep.ob("R-PAIR-F", "track_future: registers one done-callback on the future", len(regs) == 1, "found %d registrations" % len(regs), where_of(tf), trace_of(p))
+        rep.ob("R-PAIR-F", "track_future: returns its argument", p.value == F, "track_future must return the future it was given", where_of(tf))
+        marks = p.evs("immediate-callback")
+        if not marks or not incs:
             continue
-        decs = [e for e in p.calls() if q.call_name(e) == "dec" and q.recv(e) == ("param", "inprogress")]
-        rep.ob("R-PAIR-F", "record_done: dec exactly once", len(decs) == 1, "found %d dec on a path" % len(decs), where_of(rd), trace_of(p))
-        c_inc = [e for e in p.calls() if q.call_name(e) == "inc" and q.recv(e) == ("param", "cancelled")]
-        f_inc = [e for e in p.calls() if q.call_name(e) == "inc" and q.recv(e) == ("param", "failed")]
-        atoms = dict((fmt(t), v) for t, v in p.branch_atoms())
-        was_c = atoms.get("f.cancelled()")
-        was_f = atoms.get("f.exception()")
+        ncb += 1
+        m = marks[0]
+        after = [e for e in p.calls() if e.seq > m.seq]
+        decs = [e for e in after if q.call_name(e) == "dec"]
+        ok = len(decs) == 1 and q.recv(decs[0]) == q.recv(incs[0])
+        rep.ob("R-PAIR-F", "done-callback: decrements the gauge child that was incremented, exactly once", ok, "found %d dec() on the callback's path%s" % (len(decs), "" if not decs or q.recv(decs[0]) == q.recv(incs[0]) else " (on %s, not the incremented child)" % fmt(q.recv(decs[0]))), where_of(tf), trace_of(p))
+        c_inc = [e for e in after if q.call_name(e) == "inc" and name_of_metric(q.recv(e)) == "FUTURE_CANCEL"]
+        f_inc = [e for e in after if q.call_name(e) == "inc" and name_of_metric(q.recv(e)) == "FUTURE_ERROR"]
+        was_c = q.truth_of(p, ("call", ("attr", F, "cancelled"), (), (), None))
+        was_f = q.truth_of(p, ("call", ("attr", F, "exception"), (), (), None))
         want_c = 1 if was_c else 0
         want_f = 1 if (not was_c and was_f) else 0
-        rep.ob("R-PAIR-F", "record_done: cancel/error counters exclusive [%s]" % q.path_sig(p), len(c_inc) == want_c and len(f_inc) == want_f and was_c is not None, "cancelled=%s failed=%s but FUTURE_CANCEL inc x%d, FUTURE_ERROR inc x%d" % (was_c, was_f, len(c_inc), len(f_inc)), where_of(rd), trace_of(p))
+        rep.ob("R-PAIR-F", "done-callback: cancel/error counters exclusive [cancelled=%s failed=%s]" % (was_c, was_f), len(c_inc) == want_c and len(f_inc) == want_f and was_c is not None, "cancelled=%s failed=%s but FUTURE_CANCEL inc x%d, FUTURE_ERROR inc x%d" % (was_c, was_f, len(c_inc), len(f_inc)), where_of(tf), trace_of(p))
+    rep.require(ncb >= 3, "track_future: the registered done-callback could not be analysed (%d paths)" % ncb)
 
 
 def name_of_metric(t):
@@ -302,50 +301,81 @@ def name_of_metric(t):
 
 # ------------------------------------------------------------------------- counters
 def counters(ctx, rep):
+    """event counters, evaluated on the entry points that reach them (worker threads, shutdown) with helpers inlined"""
     prog = ctx.prog
-    # RETRY_TOTAL
-    sn = prog.fn("RetryExecutor._submit_now")
-    ps, it = ctx.paths(sn, sn.owner)
-    n = 0
+    SELF = ("param", "self")
+    # RETRY_TOTAL: on the retry worker's paths, per hand-over to the delegate
+    rex = prog.cls("RetryExecutor")
+    layer = roles.Layer(ctx, rex)
+    rep.require(layer.loop is not None, "RetryExecutor worker thread not found")
+    RQ = roles.Queue(ctx, rex)
+    FNF = RQ.roles["fn"]
+    DELEG = roles.delegate_field(ctx, rex)
+    ps, it = ctx.paths(layer.loop, None, depth=6, inline=roles.std_inline)
+    kinds = set()
     for p in ps:
-        subs = [e for e in p.calls() if q.call_name(e) == "submit" and q.recv(e) == ("attr", ("param", "self"), "_delegate")]
+        subs = [e for e in p.calls() if q.call_name(e) == "submit" and isinstance(q.recv(e), tuple) and q.recv(e)[0] == "attr" and q.recv(e)[2] == DELEG]
         rt = [e for e in p.calls() if q.metric_of(e) and q.metric_of(e)[0] == "RETRY_TOTAL"]
         if not subs:
-            rep.ob("R-COUNTER", "_submit_now: RETRY_TOTAL only with a hand-over", not rt, "retry counted on a path without a delegate submit", where_of(sn), trace_of(p))
+            rep.ob("R-COUNTER", "retry worker: RETRY_TOTAL only with a hand-over", not rt, "retry counted on a path without a delegate submit", where_of(layer.loop), trace_of(p))
             continue
-        n += 1
-        first = None
-        for t, v in p.branch_atoms():
-            s = fmt(t)
-            if "attempt" in s and "0" in s:
-                first = (t, v)
-        rep.require(first is not None, "_submit_now: the test of job.attempt against 0 was not found")
-        t, v = first
-        # normalise: (attempt == 0) true  <=> first attempt
+        a0 = subs[0].d["args"][0] if subs[0].d["args"] else None
+        J = a0[1] if isinstance(a0, tuple) and a0[0] == "attr" and a0[2] == FNF else None
         is_first = None
-        if t[0] == "cmp" and t[1] == "==":
-            is_first = v
-        elif t[0] == "cmp" and t[1] in (">", ">="):
-            is_first = not v
-        rep.require(is_first is not None, "_submit_now: unrecognised form of the attempt test: %s" % fmt(t))
+        wrong = None
+        import operator
+        ops = {"==": operator.eq, "!=": operator.ne, "<": operator.lt, "<=": operator.le, ">": operator.gt, ">=": operator.ge}
+        for t, v, b in q.atoms(p):
+            if isinstance(t, tuple) and t[0] == "cmp" and t[1] in ops and b.seq < subs[0].seq:
+                A, B = t[2], t[3]
+                if isinstance(A, tuple) and A[0] == "attr" and A[1] == J and B[0] == "const" and isinstance(B[1], int) and not isinstance(B[1], bool):
+                    pred = lambda n, t=t, B=B: ops[t[1]](n, B[1])  # noqa: E731
+                elif isinstance(B, tuple) and B[0] == "attr" and B[1] == J and A[0] == "const" and isinstance(A[1], int) and not isinstance(A[1], bool):
+                    pred = lambda n, t=t, A=A: ops[t[1]](A[1], n)  # noqa: E731
+                else:
+                    continue
+                sat = set(n for n in range(0, 6) if pred(n) == v)
+                if sat == {0}:
+                    is_first = True
+                elif sat == {1, 2, 3, 4, 5}:
+                    is_first = False
+                else:
+                    wrong = (t, v, b)
+        if is_first is None and wrong is not None:
+            rep.ob("R-COUNTER", "retry worker: RETRY_TOTAL decided by 'attempt number is 0'", False, "the attempt test `%s` (%s) does not separate the first attempt (0) from re-submissions (>= 1)" % (fmt(wrong[0]), wrong[1]), where_of(wrong[2].fn, wrong[2].node), trace_of(p, wrong[2].seq))
+            kinds.update({True, False})
+            continue
+        if is_first is None:
+            rep.ob("R-COUNTER", "retry worker: RETRY_TOTAL decided by the attempt number", not rt or False, "RETRY_TOTAL is incremented on a hand-over path that does not test the job's attempt number against 0", where_of(subs[0].fn, subs[0].node), trace_of(p, subs[0].seq))
+            continue
+        kinds.add(is_first)
         want = 0 if is_first else 1
-        rep.ob("R-COUNTER", "_submit_now: RETRY_TOTAL iff re-submission [%s]" % ("first" if is_first else "retry"), len(rt) == want and all(x.seq < subs[0].seq or True for x in rt), "attempt %s 0 but RETRY_TOTAL inc x%d" % ("==" if is_first else "!=", len(rt)), where_of(sn), trace_of(p))
-    rep.require(n >= 2, "_submit_now: expected hand-over paths for first attempt and retry")
-    # TIMEOUT
-    dc = prog.fn("TimeoutExecutor._do_cancel")
-    ps, it = ctx.paths(dc, dc.owner)
+        rep.ob("R-COUNTER", "retry worker: RETRY_TOTAL iff re-submission [%s]" % ("first" if is_first else "retry"), len(rt) == want, "attempt %s 0 but RETRY_TOTAL inc x%d" % ("==" if is_first else "!=", len(rt)), where_of(subs[0].fn, subs[0].node), trace_of(p, subs[0].seq))
+    rep.require(kinds == {True, False}, "retry worker: expected hand-over paths for first attempt and retry (found %s)" % sorted(kinds))
+    # TIMEOUT: on the timeout worker's paths, per cancel() of an overdue job's future
+    tox = prog.cls("TimeoutExecutor")
+    tl = roles.Layer(ctx, tox)
+    rep.require(tl.loop is not None, "TimeoutExecutor worker thread not found")
+    ps, it = ctx.paths(tl.loop, None, depth=6, inline=roles.std_inline)
+    ncs = 0
     for p in ps:
-        cs = [e for e in p.calls() if q.call_name(e) == "cancel"]
+        cs = [e for e in p.calls() if q.call_name(e) == "cancel" and e.d["callee"] is None]
         ti = [e for e in p.calls() if q.metric_of(e) and q.metric_of(e)[0] == "TIMEOUT"]
-        rep.require(len(cs) == 1, "TimeoutExecutor._do_cancel: expected one cancel() call per path")
-        res = ("call",) + (cs[0].d["func"], cs[0].d["args"], cs[0].d["kwargs"], None)
-        truth = p.assume.get(res)
-        rep.require(truth is not None, "TimeoutExecutor._do_cancel: the result of cancel() is not tested")
-        rep.ob("R-COUNTER", "TimeoutExecutor._do_cancel: TIMEOUT iff cancel succeeded [%s]" % truth, len(ti) == (1 if truth else 0), "cancel() %s but TIMEOUT inc x%d" % (truth, len(ti)), where_of(dc), trace_of(p))
+        if not cs:
+            rep.ob("R-COUNTER", "timeout worker: TIMEOUT only after a cancel", not ti, "TIMEOUT counted on a path without a cancel()", where_of(tl.loop), trace_of(p))
+            continue
+        ncs += 1
+        truths = [q.truth_of(p, q.result_of(c)) for c in cs]
+        rep.ob("R-COUNTER", "timeout worker: the result of cancel() decides", all(t is not None for t in truths), "the result of cancel() is not tested", where_of(cs[0].fn, cs[0].node), trace_of(p, cs[0].seq))
+        if all(t is not None for t in truths):
+            want = len([t for t in truths if t])
+            rep.ob("R-COUNTER", "timeout worker: TIMEOUT iff cancel succeeded [%s]" % truths, len(ti) == want, "cancel() %s but TIMEOUT inc x%d" % (truths, len(ti)), where_of(cs[0].fn, cs[0].node), trace_of(p, cs[0].seq))
+    rep.require(ncs >= 2, "timeout worker: cancel of overdue jobs not found")
     # SHUTDOWN_CANCEL
     cs_cls = prog.cls("CancelOnShutdownExecutor")
     sh = cs_cls.methods["shutdown"]
-    ps, it = ctx.paths(sh, cs_cls)
+    own = set(m.key for m in cs_cls.methods.values())
+    ps, it = ctx.paths(sh, cs_cls, depth=4, inline=lambda callee, ev, path: True if callee.key in own else None)
     seen = 0
     for p in ps:
         cs = [e for e in p.calls() if q.call_name(e) == "cancel" and isinstance(q.recv(e), tuple) and q.recv(e)[0] == "elem"]
@@ -354,28 +384,31 @@ def counters(ctx, rep):
             rep.ob("R-COUNTER", "CancelOnShutdownExecutor.shutdown: SHUTDOWN_CANCEL only after a cancel", not sc, "counter incremented without a cancel", where_of(sh), trace_of(p))
             continue
         seen += 1
-        res = ("call", cs[0].d["func"], cs[0].d["args"], cs[0].d["kwargs"], None)
-        truth = p.assume.get(res)
+        truth = q.truth_of(p, q.result_of(cs[0]))
         rep.require(truth is not None, "CancelOnShutdownExecutor.shutdown: the result of cancel() is not tested")
         rep.ob("R-COUNTER", "CancelOnShutdownExecutor.shutdown: SHUTDOWN_CANCEL iff cancel succeeded [%s]" % truth, len(sc) == (1 if truth else 0), "cancel() %s but SHUTDOWN_CANCEL inc x%d" % (truth, len(sc)), where_of(sh), trace_of(p))
     rep.require(seen >= 2, "CancelOnShutdownExecutor.shutdown: cancel loop not found")
-    # POLL_TOTAL / POLL_ERROR
-    rp = prog.fn("PollExecutor._run_poll_fn")
-    ps, it = ctx.paths(rp, rp.owner)
+    # POLL_TOTAL / POLL_ERROR: on the poll worker's paths, per call of the poll function
+    pex = prog.cls("PollExecutor")
+    pl = roles.Layer(ctx, pex)
+    rep.require(pl.loop is not None, "PollExecutor worker thread not found")
+    PF = roles.ctor_param_fields(ctx, pex, "poll_fn")
+    ps, it = ctx.paths(pl.loop, None, depth=6, inline=roles.std_inline)
     kinds = set()
     for p in ps:
         pt = [e for e in p.calls() if q.metric_of(e) and q.metric_of(e)[0] == "POLL_TOTAL"]
         pe = [e for e in p.calls() if q.metric_of(e) and q.metric_of(e)[0] == "POLL_ERROR"]
-        ucalls = [e for e in p.calls() if e.d.get("user")]
-        caught = [e for e in p.evs("catch")]
-        raised = [e for e in p.evs("raise")]
-        failed = bool(raised) and bool(ucalls)
-        kinds.add(failed)
+        ucalls = [e for e in p.calls() if e.d.get("user") and isinstance(e.d["func"], tuple) and e.d["func"][0] == "attr" and e.d["func"][2] in PF]
         if not ucalls:
+            rep.ob("R-COUNTER", "poll worker: POLL_TOTAL / POLL_ERROR only with a poll call", not pt and not pe, "poll counters change on a path that does not call the poll function", where_of(pl.loop), trace_of(p))
             continue
-        rep.ob("R-COUNTER", "_run_poll_fn: POLL_TOTAL once per poll call [%s]" % ("poll_fn raised" if failed else "poll_fn returned"), len(pt) == 1, "POLL_TOTAL inc x%d on a path that called the poll function (status %s)" % (len(pt), p.status), where_of(rp), trace_of(p))
-        rep.ob("R-COUNTER", "_run_poll_fn: POLL_ERROR iff poll_fn raised [%s]" % ("poll_fn raised" if failed else "poll_fn returned"), len(pe) == (1 if failed else 0), "poll function %s but POLL_ERROR inc x%d" % ("raised" if failed else "returned", len(pe)), where_of(rp), trace_of(p))
-    rep.require(kinds == {True, False}, "_run_poll_fn: expected a returning and a raising poll path")
+        u = ucalls[0]
+        failed = any(r.node is u.node and isinstance(r.d, tuple) and len(r.d) > 2 and isinstance(r.d[2], tuple) and r.d[2][0] == "from" for r in p.evs("raise"))
+        kinds.add(failed)
+        tag = "poll_fn raised" if failed else "poll_fn returned"
+        rep.ob("R-COUNTER", "poll worker: POLL_TOTAL once per poll call [%s]" % tag, len(pt) == len(ucalls), "POLL_TOTAL inc x%d on a path that called the poll function %d times (status %s)" % (len(pt), len(ucalls), p.status), where_of(u.fn, u.node), trace_of(p, u.seq))
+        rep.ob("R-COUNTER", "poll worker: POLL_ERROR iff poll_fn raised [%s]" % tag, len(pe) == (1 if failed else 0), "poll function %s but POLL_ERROR inc x%d" % ("raised" if failed else "returned", len(pe)), where_of(u.fn, u.node), trace_of(p, u.seq))
+    rep.require(kinds == {True, False}, "poll worker: expected a returning and a raising poll path")
 
 
 # -------------------------------------------------------------------------- tracked
